@@ -863,7 +863,8 @@ impl ExecutionEngine {
                             values
                                 .iter()
                                 .filter_map(|value| value.parse::<f64>().ok())
-                                .sum::<f64>()
+                                // an empty sum is 0, not the -0.0 that `sum` of no f64 yields
+                                .fold(0.0_f64, |total, value| total + value)
                                 .to_string(),
                         ),
                         "AVG" => {
